@@ -252,6 +252,9 @@ class Libs:
     def on_enter(self, f, fr):
         pass
 
+    def is_tensor(self, obj):
+        return isinstance(obj, DataT)
+
     # ----------------------------------------------------------- modules
     def module(self, dotted):
         if dotted in self._mods:
